@@ -40,6 +40,9 @@ def jobs(tier, seed):
                           div_safety=True, eager=False))
     for n in (1, 2, 5, 8):
         J.append(dict(entry='h_diagonal', args=[n], label=f'diagonal n={n}', cls='diagonal', reach=['solved'], diff=(n == 5), eager=False))
+    for j in J:
+        j.setdefault('solver_budget_quick', 90)     # a tree that breaks every solve must still end in bounded time
+        j.setdefault('max_paths', 400)
     return J
 
 
